@@ -307,12 +307,16 @@ impl Context {
                             break;
                         } else {
                             // If we have no gray objects left, we enter the sweep phase.
-                            cx.switch(Phase::Sweep);
-
+                            //
                             // Set `sweep to the current head of our `all` linked list. Any new
                             // allocations during the newly-entered `Phase:Sweep` will update `all`,
                             // but will *not* be reachable from `this.sweep`.
+                            //
+                            // The cursor is set before the phase is switched: switching logs
+                            // through `tracing`, and a subscriber that panics there must not
+                            // leave the arena Sweeping without a sweep cursor.
                             cx.sweep = cx.all.get();
+                            cx.switch(Phase::Sweep);
                         }
                     }
                 }
